@@ -9,6 +9,7 @@ import (
 
 	"github.com/bluenviron/gomavlib/v3"
 	"github.com/bluenviron/gomavlib/v3/pkg/dialect"
+	"github.com/bluenviron/gomavlib/v3/pkg/dialects/common"
 	"github.com/bluenviron/gomavlib/v3/pkg/frame"
 	"github.com/bluenviron/gomavlib/v3/pkg/message"
 	"github.com/bluenviron/gomavlib/v3/pkg/streamwriter"
@@ -495,6 +496,83 @@ func TestC06(t *testing.T) {
 				checkEmitted("node", out, keyRaw, link, t0, t1)
 			}
 		}
+	}
+
+	// a wall clock that is stepped BACKWARDS during the life of a link (NTP step, GPS time acquired): through the clock-shift
+	// hook (build tag verif). Whatever the writers make of the timestamp then, what they emit is signed: the signature
+	// verifies over the bytes that leave, timestamp included
+	{
+		keyRaw := keys[1]
+		key := mkKey(keyRaw)
+		shift := func(d time.Duration) {
+			frame.VerifShiftSignatureClock(d)
+			streamwriter.VerifShiftSignatureClock(d)
+		}
+		sigOnly := func(api string, wire []byte) {
+			for off := 0; off < len(wire); {
+				f, ln, st := ref.ParseAt(wire, off)
+				if st != ref.ParseOK {
+					rep.Violation("what=writer:"+api+":flag", "writer output is not a sequence of whole frames (clock stepped backwards)", vh.Hex(wire[off:min(len(wire), off+64)]))
+					return
+				}
+				w := wire[off : off+ln]
+				rep.Eval(1)
+				rep.Count("emitted_frames_after_clock_step_back", 1)
+				if !f.Signed || f.Signature != ref.SignatureOfWire(keyRaw, w) {
+					rep.Violation("what=writer:"+api+":sig", "after the wall clock was stepped backwards a writer with an outgoing key emitted a frame whose signature does not verify over the bytes it sent", vh.Hex(w))
+					return
+				}
+				off += ln
+			}
+		}
+		hbm := &common.MessageHeartbeat{Type: 1, Autopilot: 2, SystemStatus: 4, MavlinkVersion: 3}
+		drwC, _ := newDialectRW(&common.MessageHeartbeat{})
+		rwS, rwF := &recWriter{}, &recWriter{}
+		fwS := &frame.Writer{ByteWriter: rwS, DialectRW: drwC}
+		_ = fwS.Initialize()
+		sw := &streamwriter.Writer{FrameWriter: fwS, Version: streamwriter.V2, SystemID: 9, ComponentID: 3, SignatureLinkID: 4, Key: key}
+		_ = sw.Initialize()
+		fwF := &frame.Writer{ByteWriter: rwF, DialectRW: drwC, OutVersion: frame.V2, OutSystemID: 4, OutSignatureLinkID: 5, OutKey: key}
+		_ = fwF.Initialize()
+		tr := fake.NewTransport("clk")
+		node := &gomavlib.Node{Endpoints: []gomavlib.EndpointConf{gomavlib.EndpointCustom{ReadWriteCloser: tr}}, Dialect: &dialect.Dialect{Version: 3, Messages: []message.Message{&common.MessageHeartbeat{}}},
+			OutVersion: gomavlib.V2, OutSystemID: 12, OutKey: key, HeartbeatDisable: true}
+		if err := node.Initialize(); err != nil {
+			t.Fatal(err)
+		}
+		<-node.Events()
+		go func() {
+			for range node.Events() {
+			}
+		}()
+		total := time.Duration(0)
+		nodeWrites := 0
+		for step := 0; step < 6; step++ {
+			for i := 0; i < 5; i++ {
+				hbm.CustomMode = uint32(step*10 + i)
+				_ = sw.Write(hbm)
+				_ = fwF.WriteMessage(hbm)
+				_ = node.WriteMessageAll(&common.MessageHeartbeat{CustomMode: uint32(step*10 + i), MavlinkVersion: 3})
+				nodeWrites++
+			}
+			tr.WaitWrites(nodeWrites, 2*time.Second) // the channel writer is idle while the clock is changed
+			d := -time.Duration([]int{1, 1000, 10, 3600000, 20, 1}[step]) * time.Millisecond
+			shift(d)
+			total += d
+		}
+		for i := 0; i < 5; i++ {
+			_ = sw.Write(hbm)
+			_ = fwF.WriteMessage(hbm)
+			_ = node.WriteMessageAll(&common.MessageHeartbeat{CustomMode: 99, MavlinkVersion: 3})
+			nodeWrites++
+		}
+		tr.WaitWrites(nodeWrites, 2*time.Second)
+		shift(-total) // the clock is right again
+		node.Close()
+		sigOnly("streamwriter", rwS.all())
+		sigOnly("framewriter", rwF.all())
+		sigOnly("node", tr.Output())
+		rep.Count("clock_steps_backwards", 6)
 	}
 
 	// node with InKey: only authenticated frames surface as frame events (whatever version the node itself sends)
